@@ -210,9 +210,10 @@ const CANON_PATH_KEY: &str = "workspace.ignoreDir";
 
 /// Delta-minimise a failing case in the engine's own vocabulary while it keeps failing with the
 /// same signature: drop sources, turn partial configs and Lua tables into JSON files, merge files,
-/// drop keys / array elements / characters, turn leaves into 1, rename key segments to a, b, c,
+/// drop keys / key segments / array elements / characters, turn leaves into 1, rename key segments to a, b, c
+/// (by name, then by position),
 /// flatten single-key nesting, move a path list to the canonical pre-processed field.
-fn minimise(start: &Case, sig: &str, isolated: bool) -> Case {
+pub fn minimise(start: &Case, sig: &str, isolated: bool) -> Case {
     let test = |c: &Case| -> Option<Case> {
         if isolated {
             let c = c.with_perm(None);
@@ -380,6 +381,9 @@ fn minimise(start: &Case, sig: &str, isolated: bool) -> Case {
                 .collect();
             tries.push(flat);
             tries.push(rename_segments(&objs));
+            if let Some(t) = rename_positional(&objs) {
+                tries.push(t);
+            }
             if objs.len() == 1 {
                 if let Some(m) = objs[0].as_object() {
                     if m.len() == 1 {
